@@ -14,15 +14,16 @@ table = "\n| seed | property | detected by | notes |\n|---|---|---|---|\n" + "\n
 p = os.path.join(ROOT, "DESIGN.md")
 s = open(p).read()
 a = s.index("\n| seed | property | detected by | notes |")
-b = s.index("\nPattern of the misses:")
+b = s.index("\nPattern of the misses")
 s = s[:a] + table + s[b:]
 n_missed = sum(1 for r in rows if r[3].startswith("missed"))
 import re
-s = re.sub(r"Pattern of the misses:.*?The alphabets were widened accordingly; the bounds stayed exhaustive\.",
+s = re.sub(r"Pattern of the misses.*?the bounds stayed exhaustive\.",
            f"Pattern of the misses ({n_missed} of {len(rows)} seeds were missed at first, all are detected now): every one was a gap in an *alphabet* "
            "(no grouped IN-subquery, no expression ORDER BY key, comment texts too short, no column spelled like a table, no `CAST ... FORMAT`, "
            "one source name per alias, join kind x residual ON beyond the cost bound, no per-call `normalize=False`, construct pairs only in the base "
-           "dialect) or in the *scheduling points* of C19 (chosen by function name; none while a module body executes) - never an oracle that was "
+           "dialect, no wrapped option list, no user-defined type, only the bare equi-join condition, only `quoted=True` identifiers, no column-list "
+           "alias over a 3-branch set operation, no set-operation body in a scalar subquery) or in the *scheduling points* of C19 (chosen by function name; none while a module body executes) - never an oracle that was "
            "too weak. The alphabets / point sets were widened accordingly; the bounds stayed exhaustive.", s, flags=re.S)
 open(p, "w").write(s)
 print(len(rows), "seeds,", n_missed, "missed at first")
